@@ -47,7 +47,14 @@ RULE = ('a case = (record, dt, 3-5 fraction pairs incl. a nested pair and someti
         'place (rebase_displacement, set_zero_residual_*, remove_rolling_average, direct edit of .values) or continue with a '
         'twin built from the values; up to two later rounds mutate again and repeat the monitored calls in shuffled order '
         'with repeats, each compared with a fresh object. A second record of the same shape is processed between two '
-        'identical calls (process-wide state). Exhaustive part: every sequence over {-2..2} of length 1..5 (quick) / 1..6 '
+        'identical calls (process-wide state). Audit round 2: record shapes (both ends large, ramp, one-sided negative, exact '
+        'zeros inside, Nyquist component, square wave, tail-heavy, single step, single changed sample, one sample 1e3..1e9 '
+        'times larger than the rest, spikes at both ends), lengths up to 4097, awkward time steps (gen.awkward_dt), objects '
+        'the LIBRARY derives from analysed objects (deepcopy, interp_to_approx_dt, resample_to_approx_dt, combine_at_angle, '
+        'Cluster members, fas2signal = complex-valued records), every cheap public observable of the object read on deep '
+        'copies before / after the analysis calls, first calls re-called on the same object, attributes left by '
+        'generate_duration_stats compared with calc_sig_dur_vals. The functions have no secondary array arguments and no '
+        'int()/floor()/ceil() of a quotient (checklist items 8, 9: nothing to size). Exhaustive part: every sequence over {-2..2} of length 1..5 (quick) / 1..6 '
         '(thorough) as float64 / int64 / int8 in plain, read-only, strided and reversed layout. distinct = digest of the '
         'complete case; non-trivial = record with a non-zero sample.')
 ASSUMPTIONS = ['NaN/inf-free real records (numpy arrays of any real dtype, lists, tuples) or AccSignal objects',
@@ -59,8 +66,13 @@ ASSUMPTIONS = ['NaN/inf-free real records (numpy arrays of any real dtype, lists
                'multiplies a float32 array with a Python float in float32, with np.float64 in float64: knife edges move)',
                'zero-prepending shift is judged for the Arias measure only when the record starts with a zero sample (the '
                'trapezoid between the last added zero and a non-zero first sample adds intensity)',
-               'a floating-point evaluation may resolve samples within 4(n+8)u of a bound either way (u = unit roundoff of '
-               'the record dtype); exact ties are decided strictly when every operation is exact',
+               'a floating-point evaluation may resolve samples within 4(n+8)u RELATIVE TO THE BOUND either way (u = unit '
+               'roundoff of the record dtype; valid for running sums of non-negative terms without under/overflow: the '
+               'workload keeps |a| in 1e-18..1e24 for float64 and 1e-7..1e7 for float32); exact ties are decided strictly '
+               'when every operation is exact',
+               'times are index*dt compared with rtol 1e-12 relative to max(time, dt): valid for every dt > 0 and n < 2**40',
+               'complex records (library-made by fas2signal) count through |a| (numpy abs) for the bracketed duration and '
+               'through their real part for the cumulative measures when |imag| <= 1e-9 max|real|, else not judged',
                'failures of the history operations themselves (filters on too short records, np.trapz in generate_*_stats, '
                'in-place corrections on read-only data) are observations, not C10 verdicts',
                'custom measures need not be monotone: the definition is applied literally to the measure\'s own output; a '
@@ -81,7 +93,9 @@ _MIN_QUICK = {   # ~50 % of what a normal quick run reaches (minimum over seeds 
     'brac.start/end==definition': 35000, 'brac.duration==definition': 41000, 'brac.none-exceeds->(None,None)/0': 21000,
     'alias.bracketed_duration.duration==definition': 8500, 'brac.threshold==|a_i| decided strictly': 39000,
     'brac.single-exceeder(se=True)': 9000, 'brac.single-exceeder(se=False)': 10500,
-    'purity.argument-unchanged': 220000,
+    'purity.argument-unchanged': 220000, 'purity.object-observables-unchanged': 500,
+    'rel.same-object-recall': 7500, 'rel.generate_duration_stats==calc_sig_dur_vals': 200,
+    'brac.complex-record(fas2signal) judged': 2000,
     'rel.se-pair-difference==scalar': 51000, 'rel.scale-pow2-invariant': 8500, 'rel.scale-any-invariant': 1200,
     'rel.zero-prepend-shift': 4500, 'rel.nested-fractions': 14000, 'rel.brac-monotone-threshold': 17000,
     'rel.brac-joint-scale-invariant': 14000, 'rel.history==fresh': 13000, 'rel.repeat-after-other-input': 2700}
@@ -327,6 +341,8 @@ def check_brac(ctx, name, call, arr, dt, threshold, se, result):
         return
     vals = arr.tolist()
     ref = O.bracket(vals, th)
+    if np.asarray(call['values']).dtype.kind == 'c':
+        ctx.ok('brac.complex-record(fas2signal) judged')
     if ref is None:
         if se:
             okk = _is_pair(result) and result[0] is None and result[1] is None
@@ -1172,7 +1188,7 @@ N_CHOICES = [2, 3, 4, 5, 6, 8, 12, 16, 17, 25, 33, 50, 64, 100, 200, 257, 500, 1
 N_P = np.array([3, 3, 3, 3, 3, 4, 4, 5, 5, 5, 6, 7, 7, 8, 8, 7, 7, 5, 3, 2], dtype=float)
 N_P /= N_P.sum()
 N_EDGE = [1, 1, 2, 2, 3, 3, 4, 7, 8, 9, 15, 16, 17, 31, 32, 33, 63, 64, 65, 127, 128, 129, 255, 256, 257, 511, 512, 513,
-          1023, 1024, 1025, 2047, 2048, 2049]
+          1023, 1024, 1025, 2047, 2048, 2049, 4095, 4096, 4097]
 NARROW = {'i8': np.int8, 'i16': np.int16, 'i32': np.int32, 'u8': np.uint8, 'u16': np.uint16}
 
 
@@ -1312,6 +1328,23 @@ def _gen_mutation(rng, ops, n, dt, small, keep_length):
     return n
 
 
+def _gen_derive(rng, ops, n, small):
+    """The library derives a new object from the (analysed) current one; returns the new length where it is predictable."""
+    how = ['deepcopy', 'interp', 'resample', 'combine', 'cluster', 'fas'][int(rng.integers(6))]
+    op = {'op': 'derive', 'how': how}
+    if how in ('interp', 'resample'):
+        op['factor'] = float(rng.choice([0.5, 0.4, 2.0, 3.0, 0.25]))
+        n = None
+    elif how in ('combine', 'cluster'):
+        op['values'] = rng.normal(size=min(n or 64, 64)) * (0.03 if small else 1.0)
+        op['angle'] = float(rng.choice([0.0, 30.0, 90.0, 137.5]))
+        op['index'] = int(rng.integers(2))
+    elif how == 'fas':
+        n = None
+    ops.append(op)
+    return n
+
+
 def gen_history(rng, n, dt, small):
     """(history ops before the first block of monitored calls, later rounds of ops each followed by another block)."""
     ops = []
@@ -1322,16 +1355,67 @@ def gen_history(rng, n, dt, small):
         n = _gen_mutation(rng, ops, n, dt, small, False)
     if rng.random() < 0.3:
         _gen_reads(rng, ops, 1, small)
+    if rng.random() < 0.3:
+        _gen_reads(rng, ops, 1, small)            # make sure the source is warm
+        n = _gen_derive(rng, ops, n, small)
     rounds = []
     for _ in range(int(rng.choice([0, 1, 2], p=[0.4, 0.4, 0.2]))):
         rops = []
         if rng.random() < 0.6:
             _gen_reads(rng, rops, 1, small)
-        n = _gen_mutation(rng, rops, n, dt, small, False)
+        if n is None or rng.random() < 0.3:
+            n = _gen_derive(rng, rops, n, small)
+        else:
+            n = _gen_mutation(rng, rops, n, dt, small, False)
         if rng.random() < 0.3:
             _gen_reads(rng, rops, 1, small)
         rounds.append(rops)
     return ops, rounds
+
+
+def gen_shape(rng, n):
+    """Record shapes the statement does not forbid (checklist item 11)."""
+    k = int(rng.integers(0, 11))
+    t = np.arange(n, dtype=float)
+    if k == 0:      # cut from the strong part of a longer record: both ends large
+        x = rng.normal(size=n) + np.where(t % 2 == 0, 1.0, -1.0) * 0.5
+        x[0] = 3.0 * float(rng.choice([-1.0, 1.0]))
+        x[-1] = 2.5 * float(rng.choice([-1.0, 1.0]))
+    elif k == 1:    # monotone ramp / trend dominated
+        x = (t + 1.0) * float(rng.choice([1.0, -1.0, 0.25])) + (rng.normal(size=n) * 0.1 if rng.random() < 0.5 else 0.0)
+    elif k == 2:    # one-sided: all the action at negative values
+        x = -np.abs(rng.normal(size=n)) - (1.0 if rng.random() < 0.5 else 0.0)
+    elif k == 3:    # exact zeros inside
+        x = rng.normal(size=n)
+        x[rng.random(n) < 0.3] = 0.0
+        a = int(rng.integers(0, max(1, n // 2)))
+        x[a:a + max(1, n // 5)] = 0.0
+        if not np.any(x):
+            x[n // 2] = 1.0
+    elif k == 4:    # energy exactly at the Nyquist frequency on top of a slow component
+        x = np.where(t % 2 == 0, 1.0, -1.0) * float(rng.uniform(0.5, 2.0)) + np.sin(t * rng.uniform(0.01, 0.3)) * float(rng.uniform(0.0, 1.0))
+    elif k == 5:    # constant magnitude, alternating sign in blocks (square wave)
+        w = int(rng.integers(1, 6))
+        x = np.where((t // w) % 2 == 0, 1.0, -1.0) * float(rng.choice([1.0, 0.5, 3.0]))
+    elif k == 6:    # tail-heavy: all the action in the last 1/k of the record
+        x = np.zeros(n) if rng.random() < 0.5 else rng.normal(size=n) * 1e-4
+        m = max(1, n // int(rng.integers(3, 20)))
+        x[-m:] = rng.normal(size=m) + 0.1
+    elif k == 7:    # a single non-zero step
+        x = np.zeros(n)
+        x[int(rng.integers(0, n)):] = float(rng.choice([-1.0, 1.0, 0.125]))
+    elif k == 8:    # a single changed sample in a constant record
+        x = np.full(n, float(rng.choice([1.0, -2.0, 0.5])))
+        x[int(rng.integers(0, n))] *= float(rng.choice([2.0, -1.0, 0.0, 1.0 + 2.0 ** -20]))
+    elif k == 9:    # dynamic range inside one record: one sample 1e3 .. 1e12 times larger than the others
+        x = rng.normal(size=n) * float(10.0 ** rng.uniform(-3, 0))
+        x[[0, n // 2, n - 1, int(rng.integers(0, n))][int(rng.integers(4))]] = float(rng.choice([-1.0, 1.0])) * 10.0 ** rng.uniform(3, 9)
+    else:           # two spikes of very different size at the ends, quiet in between
+        x = rng.normal(size=n) * 1e-6
+        x[0] = 10.0 ** rng.uniform(0, 6)
+        x[-1] = -10.0 ** rng.uniform(0, 6)
+    return np.asarray(x, dtype=float), ['both-ends-large', 'ramp', 'one-sided-negative', 'zeros-inside', 'nyquist', 'square', 'tail-heavy',
+                                        'single-step', 'single-changed-sample', 'spike-dynamic-range', 'end-spikes'][k]
 
 
 def _edge_modifier(rng, x):
@@ -1358,13 +1442,13 @@ def _edge_modifier(rng, x):
     return x, ['extreme-first', 'extreme-last', 'plateau-start', 'plateau-end', 'sign-change-end', 'zero-start', 'zero-end', 'plain'][k]
 
 
-KINDS = ['generic', 'generic', 'tie', 'history', 'container', 'generic', 'tie', 'history', 'scale', 'edge']
+KINDS = ['generic', 'shape', 'tie', 'history', 'container', 'generic', 'tie', 'history', 'scale', 'edge', 'shape', 'history']
 
 
 def gen_case(rng, idx):
     kind = KINDS[idx % len(KINDS)]
     case = {'kind': kind, 'form': int(rng.integers(4)), 'layout': None, 'dt_form': ['float', 'float', 'np', 'int'][int(rng.integers(4))],
-            'repeat': bool(rng.random() < 0.35)}
+            'repeat': bool(rng.random() < 0.35), 'observe_obj': bool(rng.random() < 0.3)}
     if kind == 'tie':
         x, cls = gen_tie_record(rng)
         if rng.random() < 0.3:
@@ -1379,8 +1463,10 @@ def gen_case(rng, idx):
             n = int(rng.choice(N_CHOICES, p=N_P)) if rng.random() < 0.7 else int(rng.integers(2, 3001))
         if kind == 'history':
             n = max(8, min(n, 600))
-        x, cls = gen.record(rng, n)
-        dt = gen.dt(rng) if rng.random() < 0.85 else float(rng.choice(POW2_DT))
+        x, cls = gen_shape(rng, n) if kind == 'shape' else gen.record(rng, n)
+        r = rng.random()
+        dt = gen.dt(rng) if r < 0.75 else (float(rng.choice(POW2_DT)) if r < 0.88 else
+                                           gen.awkward_dt(rng, int(rng.choice([3, 7, 11, 49, 93]))))
         case['fracs'] = gen_fracs(rng, cls in ('plateau', 'intnoise', 'const', 'alt', 'step', 'impulse'))
         case['measures'] = [['cumabs'], ['cav'], ['isq_dt'], ['cumabs', 'cav']][int(rng.integers(4))] + [NON_MONOTONE[int(rng.integers(4))]]
     case['cls'] = cls
@@ -1406,6 +1492,8 @@ def gen_case(rng, idx):
         elif sc == 'dt-huge':
             dt = float(10.0 ** rng.uniform(0, 3)) if rng.random() < 0.7 else float(rng.choice([1.0, 2.0, 60.0, 1000.0]))
         case['cls'] = sc
+        if 'micro' in sc and rng.random() < 0.6:
+            case['history'] = [{'op': ['gen_duration_stats', 'gen_all_motion_stats'][int(rng.integers(2))]}]
     if kind == 'container':
         c = ['f32', 'i64', 'list', 'tuple', 'i8', 'i16', 'i32', 'u8', 'u16', 'intlist', 'mixedlist', 'stride', 'reversed',
              'readonly'][int(rng.integers(14))]
